@@ -179,6 +179,30 @@ def run(chk, replay=None):
         b = (lambda K=K, op=op, sa=sa, scope=scope, prt=prt, kw=copy.deepcopy(kw): K(op, sa, scope, prt, **kw))
         b.cdb_args = {"service_action": num(sa), "scope": num(scope), "pr_type": num(prt)}
         record(fmt, "PersistentReserveOut", setname, b, inp)
+        # the caller keeps ONE dictionary and composes several lists from it through the public
+        # marshall_dataout, changing an entry in between; every list must be what the dictionary says then
+        live = copy.deepcopy(kw)
+        steps = [lambda: None]
+        if kind == "ram":
+            steps += [lambda: live.__setitem__("transport_id", transport_id(rng)), lambda: live.pop("transport_id", None)]
+        elif kind == "spec":
+            steps += [lambda: live.__setitem__("transport_ids", live["transport_ids"][:1]),
+                      lambda: live.__setitem__("transport_ids", [])]
+        else:
+            steps += [lambda: live.__setitem__("aptpl", 1 - live["aptpl"])]
+        for st in steps:
+            st()
+            snap = copy.deepcopy(live)
+            if "transport_id" in snap:
+                snap["transport_id"] = tid_flat(snap["transport_id"])
+            if "transport_ids" in snap:
+                snap["transport_ids"] = [tid_flat(t) for t in snap["transport_ids"]]
+            e = {"ev": "Marshal", "fmt": fmt, "in": flatten(snap) or {"#empty": []}, "bytes": [], "exc": ""}
+            try:
+                e["bytes"] = list(K.marshall_dataout(op, sa, live))
+            except Exception as ex:
+                e["exc"] = type(ex).__name__
+            marsh.append(e)
         # EXTENDED COPY
         for std, cls, fmt in ((4, "ExtendedCopy4", "XcopyLid1"), (5, "ExtendedCopy5", "XcopyLid4")):
             setname = rng.choice(["spc", "sbc", "ssc"])
